@@ -28,6 +28,8 @@ Op alphabet (script of one task; `t`/`s` are script ids, `p`/`q` positions, `k` 
     bl / wk t              await a fresh future / resolve task t's future
     aq l / rl l            PriorityLock acquire / release                   (C10 only)
     it                     list(get_ready_queue()) as labels
+    itk k                  it = iter(get_ready_queue()); k × next(it); await sleep(0); it.close()
+    spi s                  aw = sleep_insert(p) made here; create_task of script s (= [si p, …]) which awaits aw
 
 Three interpreters of the same programs:
   * RealRunner  - the real asynkit code on one of three loop configurations;
@@ -55,6 +57,8 @@ from asynkit.loop.eventloop import SchedulingSelectorEventLoop
 logging.getLogger("asyncio").disabled = True
 
 CONFIGS = ("stock", "sched", "prio")
+# one more, used by c08 for the long programs only: "prio-seq" = "prio" with the heap's arrival counter preset to 65 530
+# (white-box; see RealRunner.make_loop and notes/C08.md round 9)
 
 
 # ---------------------------------------------------------------------------------------
@@ -105,6 +109,8 @@ def enc_op(op) -> str:
         return f"sw:{op[1]}:{'n' if op[2] is None else op[2]}"
     if o == "sp":
         return f"sp:{rat(pri_frac(op[1]))}"
+    if o == "spi":
+        return f"cr8:{op[1]}"            # for the model: a plain create_task (see RealRunner.do)
     return ":".join([o] + [str(a) for a in op[1:]])
 
 
@@ -281,6 +287,7 @@ class RealRunner:
         self.next_sid = None
         self.ndraw = 0
         self.maint = 0
+        self.pre = {}              # sid -> awaitable made for its first op by its creator
 
     # ---- labels
     def label(self, handle):
@@ -310,6 +317,14 @@ class RealRunner:
             loop = PrioritySelectorEventLoop()
             if self.boost is not None:
                 loop.ready_queue.priority_boost_factor = self.boost
+            if self.config == "prio-seq":
+                # WHITE-BOX NUDGE (the only one): the arrival counter of the (empty) heap starts just below
+                # 2**16 instead of at 0, as it would after ~65 000 insertions without the queue running empty.
+                # Sequence numbers only matter relative to each other, so nothing observable changes.
+                try:
+                    loop.ready_queue._pq._sequence = 65530
+                except AttributeError:
+                    pass
             try:      # statistics only: count maintenance rounds
                 orig_maint = loop.ready_queue.do_maintenance
 
@@ -327,7 +342,7 @@ class RealRunner:
         sid = self.next_sid
         self.next_sid = None
         spec = self.prog["tasks"][sid]
-        if self.config == "prio" and spec["kind"] == "prio":
+        if self.config.startswith("prio") and spec["kind"] == "prio":
             task = PriorityTask(coro, loop=loop, priority=pri_obj(spec["pri"]), **kw)
         else:
             task = asyncio.Task(coro, loop=loop, **kw)
@@ -463,6 +478,11 @@ class RealRunner:
                     break
         except Exception:  # noqa: BLE001
             pass
+        for c in list(self.pre.values()):
+            try:
+                c.close()
+            except Exception:  # noqa: BLE001
+                pass
         for c in self.coros:
             try:
                 c.close()
@@ -534,7 +554,10 @@ class RealRunner:
             await asyncio.sleep(0)
             return "ok"
         if o == "si":
-            await asynkit.sleep_insert(op[1])
+            if sid in self.pre:
+                await self.pre.pop(sid)
+            else:
+                await asynkit.sleep_insert(op[1])
             return "ok"
         if o in ("sw", "ri", "fi", "me"):
             t = op[1]
@@ -578,6 +601,35 @@ class RealRunner:
             self.tags.add(f"cr-target-{self._state(op[2])}")
             ext.call_pos(op[1], asynkit.task_reinsert, self.tasks[op[2]], op[3])
             return "ok"
+        if o == "spi":
+            # create_task of script s whose first op `si p` awaits an awaitable that *this* task creates now:
+            # `aw = asynkit.sleep_insert(p)`; the new task does `await aw`.  For a coroutine function that is
+            # the same as the new task calling sleep_insert itself.
+            s = op[1]
+            if s in self.tasks or s >= len(self.prog["tasks"]):
+                return "nop"
+            ops_s = self.prog["tasks"][s]["ops"]
+            if ops_s and ops_s[0][0] == "si":
+                self.pre[s] = asynkit.sleep_insert(ops_s[0][1])
+                self.tags.add("awaitable-made-by-another-task")
+            self._spawn(s, asynkit.tools.create_task)
+            return "ok"
+        if o == "itk":
+            # a partially consumed iterator over the ready queue kept open across a sleep(0)
+            it = iter(ext.get_ready_queue())
+            labs = []
+            for _ in range(op[1]):
+                try:
+                    labs.append(self.label(next(it)))
+                except StopIteration:
+                    break
+            self.tags.add("iterator-kept-open")
+            try:
+                await asyncio.sleep(0)
+            finally:
+                if hasattr(it, "close"):
+                    it.close()
+            return "[" + ",".join(labs) + "]"
         if o in ("cr8", "de", "st"):
             s = op[1]
             if s in self.tasks or s >= len(self.prog["tasks"]):
@@ -808,6 +860,16 @@ class RefSched:
                 return "nop", False
             self.insert(op[1], self.new_handle("r", op[2], op[3]))
             return "ok", False
+        if o == "spi":
+            s = op[1]
+            if s in self.state or s >= len(self.prog["tasks"]):
+                return "nop", False
+            self.spawn(s)
+            return "ok", False
+        if o == "itk":
+            res = "[" + ",".join(self.lab(h) for h in self.q[:op[1]]) + "]"
+            self.suspend_sleep(me)
+            return res, True
         if o in ("cr8", "de", "st"):
             s = op[1]
             if s in self.state or s >= len(self.prog["tasks"]):
@@ -925,8 +987,10 @@ def gen_program(rng, flavour="c08", n_tasks=None, max_ops=8, long=False):
             return ["bl"]
         if r < 0.91:
             return ["wk", t]
-        if r < 0.94:
+        if r < 0.935:
             return ["it"]
+        if r < 0.95:
+            return ["itk", rng.randint(1, 3)]
         if prio_flavour:
             if nlocks and r < 0.97:
                 return ["aq", rng.randrange(nlocks)]
@@ -967,6 +1031,10 @@ def gen_program(rng, flavour="c08", n_tasks=None, max_ops=8, long=False):
         creator = rng.choice(born)
         ops = tasks[creator]["ops"]
         how = rng.choice(["cr8", "de", "de", "st"])
+        if rng.random() < 0.25:
+            # the new task first awaits a sleep_insert awaitable made by its creator
+            tasks[s]["ops"].insert(0, ["si", pos()])
+            how = "spi"
         ops.insert(rng.randint(0, len(ops)), [how, s])
         born.append(s)
     return {"tasks": tasks, "init": init, "locks": nlocks}
@@ -1075,6 +1143,32 @@ def gen_chain(rng):
     init = [["t", 0]] + [["t", depth + 1 + i] for i in range(nb)]
     rng.shuffle(init)
     return {"tasks": tasks, "init": init, "locks": depth}
+
+
+HUGE = ["f:1152921504606846976.0", "f:1152921504606847232.0", "f:1152921504606847488.0",      # 2**60 + k * 2**8
+        "f:9007199254740992.0", "f:9007199254740994.0", "i:1152921504606846976"]                  # 2**53, 2**53 + 2
+
+
+def gen_huge(rng):
+    """priorities of huge magnitude (EDF deadlines from time_ns(): >= 2**53, where `x - 1 == x` in floating
+    point) at the head of the queue while two or more callbacks are stacked positionally: positional entries
+    must still run first, in their requested order.  Only PriorityTasks are queued when the inserts happen
+    (a plain callback at priority 0 would be the head)."""
+    n = rng.randint(2, 4)
+    k = [600]
+
+    def lab():
+        k[0] += 1
+        return k[0]
+    stack = [["cp", 0, lab()], ["cp", 0, lab()]]
+    for _ in range(rng.randint(0, 2)):
+        stack.append(["cp", rng.randint(0, len(stack)), lab()])
+    first = stack + [rng.choice([["it"], ["sleep0"], ["si", rng.randint(0, 3)]]), ["sleep0"]]
+    tasks = [{"kind": "prio", "pri": HUGE[0] if rng.random() < 0.7 else HUGE[3], "ops": first}]
+    for i in range(1, n):
+        ops = [rng.choice([["sleep0"], ["si", rng.randint(0, 2)], ["cp", rng.randint(0, 1), lab()]]) for _ in range(rng.randint(1, 3))]
+        tasks.append({"kind": "prio", "pri": rng.choice(HUGE), "ops": ops})
+    return {"tasks": tasks, "init": [["t", i] for i in range(n)], "locks": 0}
 
 
 def gen_inflight(rng):
